@@ -46,6 +46,15 @@ def check(rep, ctx):
                   message=f"a scratch buffer is allocated while the cached {side} plan of {cls_} is built: what an earlier (failed) call left in it "
                           f"is emitted by the next encode of the same class, so decode(encode(x)) != x", **where)
     rep.count(R_L, 1, instance="factory-log")
+    R_Z = rep.rule("C01-b-zero-read", "an end-of-stream test (`if not chunk: raise`) only follows a read whose size is shown to be positive",
+                   floor=0, necessary_because="read(0) returns b'' on a complete stream: a chunked read_exact that asks for a 0-byte tail rejects "
+                                              "every value of exactly k * 64 KiB that the encoder has just produced")
+    from .. import scan
+    for z in scan.zero_size_eof_tests(ctx, ["kio.serial.readers", "kio.serial._parse", "kio.records.readers"]):
+        rep.check(R_Z, False, construct=z["function"], stmt=z["stmt"],
+                  message=f"the result of read({z['size']}) is taken for end of stream when empty, but nothing shows {z['size']} > 0 on this path: "
+                          f"a 0-byte request returns b'' and complete input is reported as BufferUnderflow", file=z["file"], line=z["line"])
+    rep.count(R_Z, 1, instance="scan")
     R_P = rep.rule("C01-plan", "reader and writer plans can be derived", floor=1600)
     for key, cls, plan in W.classes():
         if not rep.check(R_P, not plan["error"], construct=key, stmt=str(plan.get("error")),
